@@ -1,6 +1,6 @@
 (** C12 — property theorems only.  Each is closed by [exact] of a lemma in Proofs*.v and followed by
     [Print Assumptions]. *)
-From V Require Import Base.Util Gql.Ast C12.Model C12.Spec C12.Proofs1 C12.Proofs2 C12.Proofs3.
+From V Require Import Base.Util Gql.Ast C12.Model C12.Spec C12.Proofs1 C12.Proofs2 C12.Proofs3 C12.Proofs4 C12.Proofs5.
 
 Theorem C12_to_json_roundtrip :
   forall ds, forallb wf_def ds = true -> toModel (JObj (document_fields ds)) = Some (erase_defs ds).
@@ -102,4 +102,51 @@ Theorem C12_undefined_spread_panics_refuted :
     /\ document_runtime_texts (mkOpDoc pos0 defs) = Panic msg_fragment_not_found.
 Proof. exact undefined_spread_panics. Qed.
 Print Assumptions C12_undefined_spread_panics_refuted.
+
+Theorem C12_parse_ser :
+  forall j, no_num j = true -> jparse (ser j) = Some j.
+Proof. exact parse_ser. Qed.
+Print Assumptions C12_parse_ser.
+
+Theorem C12_printer_builds_no_numbers :
+  forall ds, no_num (JObj (document_fields ds)) = true.
+Proof. exact nn_document. Qed.
+Print Assumptions C12_printer_builds_no_numbers.
+
+Theorem C12_text_roundtrip :
+  forall ds, forallb wf_def ds = true ->
+  read_document (print_to_json_string (document_fields ds)) = Some (erase_defs ds).
+Proof. exact text_roundtrip. Qed.
+Print Assumptions C12_text_roundtrip.
+
+Theorem C12_operation_text_denotes :
+  forall defs o,
+  In (DOp o) defs -> forallb wf_def defs = true -> spreads_defined_b defs = true ->
+  exists t names fs,
+    runtime_text defs (DOp o) = Ok t
+    /\ read_document t = Some (erase_op o :: map erase_frag fs)
+    /\ Forall2 (fun n f => get_frag defs n = Some f) names fs
+    /\ NoDup names
+    /\ forall n, In n names <-> reach (get_frag defs) (op_sel o) n.
+Proof. exact operation_text_denotes. Qed.
+Print Assumptions C12_operation_text_denotes.
+
+Theorem C12_fragment_text_denotes :
+  forall defs f,
+  In (DFrag f) defs -> forallb wf_def defs = true -> spreads_defined_b defs = true ->
+  exists t names fs,
+    runtime_text defs (DFrag f) = Ok t
+    /\ read_document t = Some (erase_frag f :: map erase_frag fs)
+    /\ Forall2 (fun n g => get_frag defs n = Some g) names fs
+    /\ NoDup names
+    /\ forall n, In n names <-> (reach (get_frag defs) (fr_sel f) n /\ n <> iname (fr_name f)).
+Proof. exact fragment_text_denotes. Qed.
+Print Assumptions C12_fragment_text_denotes.
+
+Theorem C12_document_texts_total :
+  forall d,
+  forallb wf_def (od_defs d) = true -> spreads_defined_b (od_defs d) = true ->
+  exists ts, document_runtime_texts d = Ok ts /\ length ts = length (od_defs d).
+Proof. exact document_texts_total. Qed.
+Print Assumptions C12_document_texts_total.
 
